@@ -957,6 +957,7 @@ static int32_t reconstruct_omitted_chunk(struct jls_core_s * self, uint16_t sign
     double mu64;
     double std64;
 
+    const uint32_t data_type = signal_def->data_type & 0xffff;  // without the fixed-point exponent
     for (uint32_t k = 0; k < signal_def->samples_per_data / sz_samples; ++k) {
         if (s_index >= s32->header.entry_count) {
             break;
@@ -973,18 +974,18 @@ static int32_t reconstruct_omitted_chunk(struct jls_core_s * self, uint16_t sign
             std64 = s32->data[s_index][JLS_SUMMARY_FSR_STD];
         }
 
-        if (signal_def->data_type == JLS_DATATYPE_F32) {
+        if (data_type == JLS_DATATYPE_F32) {
             construct_f32(sample_id + k * sz_samples, (float *) d, sz_samples, mu32, std32);
-        } else if (signal_def->data_type == JLS_DATATYPE_F64) {
+        } else if (data_type == JLS_DATATYPE_F64) {
             construct_f64(sample_id + k * sz_samples, (double *) d, sz_samples, mu64, std64);
-        } else if ((signal_def->data_type == JLS_DATATYPE_U8) || (signal_def->data_type == JLS_DATATYPE_I8)) {
+        } else if ((data_type == JLS_DATATYPE_U8) || (data_type == JLS_DATATYPE_I8)) {
             uint8_t value = (uint8_t) ((int) roundf(mu32));
             memset(d, value, sz_bytes);
-        } else if ((signal_def->data_type == JLS_DATATYPE_U4) || (signal_def->data_type == JLS_DATATYPE_I4)) {
+        } else if ((data_type == JLS_DATATYPE_U4) || (data_type == JLS_DATATYPE_I4)) {
             uint8_t value = ((uint8_t) ((int) roundf(mu32))) & 0x0F;
             value |= (value << 4);
             memset(d, value, sz_bytes);
-        } else if (signal_def->data_type == JLS_DATATYPE_U1) {
+        } else if (data_type == JLS_DATATYPE_U1) {
             uint8_t value = ((uint8_t) roundf(mu32)) & 0x01;
             if (value) {
                 value = 0xff;
